@@ -174,6 +174,8 @@ def run_shard(shard, ctx):
             if ctx.evaluations % 400 == 1:
                 ctx.sample({'config': name, 'keys_a': list(kx), 'keys_b': list(ky), 'keys_out': list(r.keys())})
             if st == 'ok' and ctx.rng.random() < 0.12:
+                ops.check_special_values(ctx, alg, iso, cfg, 'gp', (kx, ky), cid)
+            if st == 'ok' and ctx.rng.random() < 0.12:
                 kind = ctx.rng.choice(['int', 'frac', 'float', 'array', 'array2'])
                 va, vb = numeric_kinds(ctx.rng, kx, kind), numeric_kinds(ctx.rng, ky, kind)
                 x, y = ops.value_mv(alg, kx, va), ops.value_mv(alg, ky, vb)
